@@ -266,6 +266,7 @@ def ref_parse(text, max_data_lines=None):
     """Reference reading of `text`.  max_data_lines=1 reads what a one-row discovery probe sees:
     everything up to and including the first line after the header."""
     ref = Ref()
+    text = text.replace('\r\n', '\n')      # carriage return + line feed is a line end (a lone carriage return is outside the model)
     if not set(text) <= _PLAIN:
         ref.status = 'outside'
         return ref
